@@ -100,7 +100,7 @@ func GenReadReq(t *Tape, dom Domain, existing []Tuple, i int) ReadReq {
 		x := tuple()
 		r.T = &x
 	case "batch-rest", "batch-grpc":
-		n := t.Range(0, 5)
+		n := t.Range(0, 10) // up to the configured maximal batch size
 		for j := 0; j < n; j++ {
 			r.Batch = append(r.Batch, tuple())
 		}
